@@ -361,7 +361,7 @@ ACCOUNT_KINDS = ("newAccount", "account", "keyChange")
 
 
 def flow_body(rq, an, ids):
-    rk = rq["rk"]
+    rk = rq["rk"] if rq["rk"] != "redirected" else rq.get("via")     # the resource a redirected-to location serves
     text = an.get("body_text")
     if rk == "directory":
         return {"t": "directory", "ok": decode_directory(text)}
@@ -415,6 +415,9 @@ def build_tx(att, ids):
         ok2xx = 200 <= st <= 299
         body = {"flow": flow_body(rq, an, ids)} if ok2xx else problem_class(an["body_text"])
         txs.append({"delivered": True, "ok2xx": ok2xx, "nonce": an.get("nonce"), "body": body})
+        if 300 <= st <= 399 and an.get("location"):
+            # Model/Http.lean `Redir.to`: `get` goes on with the resolved Location, `post` does not look at it
+            txs[-1]["redir"] = {"to": 1, "keep": st in (307, 308)}
     return txs
 
 
@@ -462,7 +465,7 @@ def observed_events(att, groups, cc, ids, chall_info):
         posts = [rq for rq, _ in part if rq["method"] == "POST"]
         for s, (rq, _) in zip(sends, part):
             want = ("POST",) if s == "P" else ("GET", "HEAD")
-            if rq["method"] not in want or (s == "G" and rq["rk"] not in ("directory", "newNonce")):
+            if rq["method"] not in want or (s == "G" and rq["rk"] not in ("directory", "newNonce", "redirected")):
                 problems.append("Model/Http: exchange %d: model sends %s, observed %s %s" % (gi, sends, rq["method"], rq["rk"]))
                 break
         if len({rq["path"] for rq in posts}) > 1:
